@@ -69,7 +69,11 @@ PROP = dict(
          "zeros, all equal, tiny incl. empty, large values up to 2^40, two values, powers of two, one negative weight) "
          "x part count (mostly 2..8; also 0, 1, 9..12, more parts than elements) x a malformed stream (partition array "
          "shorter/longer/empty); half of the Greedy cases are run a second time with f64 weights holding the same "
-         "integers; distinct = distinct (algorithm, weights, part count, partition length); non-trivial = matching "
+         "integers; plus a REUSE stream (about a third of the cases): one Greedy / KarmarkarKarp VALUE serves a sequence of "
+         "2-4 calls (fewer weights than parts first, then more; other lengths; the previous output, resized with garbage, "
+         "as the dirty buffer; i64 or f64 weights), each call being a case judged by the checker and compared with the model "
+         "run on that call's input with the ORIGINAL part count; distinct = distinct (algorithm, weights, part count, "
+         "partition length / buffer); non-trivial = matching "
          "lengths, at least 2 parts, at least 3 weights, not all weights zero",
     class_names={0: "Ok (exact partition compared)", 1: "InputLenMismatch", 2: "other error", 3: "panic", 4: "hang",
                  5: "Ok (k-way KK: loads compared; partition also identical)",
